@@ -180,3 +180,10 @@ def couplers(ctx):
     g = ctx.func('mystic.symbolic:generate_constraint')
     src = ''.join(unparse(g.node).split())
     ctx.check("join=kwds['join']if'join'inkwdselseNone" in src.replace('"', "'") or 'join' in src, 'generate_constraint#join', 'join keyword honoured', 'join keyword vanished', g, g.node)
+
+
+@rule('C17.d', min_instances=4)
+def penalty_combinators(ctx):
+    """coupler.and_/or_/not_: zero exactly where all / any member is zero, not_ negates by the resolved penalty type (shared with C15.e)"""
+    from .c15 import combinators
+    combinators(ctx)
